@@ -171,6 +171,40 @@ func (g *gen) opRepeatOverdraw() bool {
 	return true
 }
 
+// opFreezeNFTInFlight: a holder sends ALL it has of an NFT / SFT to a contract on another shard that does not accept
+// payments; while the message is under way the system contract freezes that NFT on the sender (an NFT is frozen through
+// the identifier token‖nonce: the sender, holding nothing, gets a flagged empty entry under the NFT's key); the delivery is
+// refused, the refund comes home to that entry: the sender is restored under the SAME key. Then everything is put back.
+func (g *gen) opFreezeNFTInFlight() bool {
+	x, ok := g.pickHeld(func(a []byte, h holding) bool { return isNFT(a, h) && !h.frozen && h.val.BitLen() < 60 })
+	if !ok || g.shardOf(x.a) < 0 {
+		return false
+	}
+	var c []byte
+	for _, k := range g.contracts {
+		if g.shardOf(k) >= 0 && g.shardOf(k) != g.shardOf(x.a) {
+			c = k
+			break
+		}
+	}
+	if c == nil {
+		return false
+	}
+	g.drain()
+	g.emitf("payable %s no", hx(c))
+	full := append(append([]byte{}, x.h.tok...), x.h.nb()...)
+	if g.r.Intn(2) == 0 {
+		g.do(g.user(oracle.FnNFTTransfer, x.a, x.a, bigGas, x.h.tok, x.h.nb(), x.h.val.Bytes(), c))
+	} else {
+		g.do(g.user(oracle.FnMultiTransfer, x.a, x.a, bigGas, c, be(1), x.h.tok, x.h.nb(), x.h.val.Bytes()))
+	}
+	g.do(g.sys(oracle.FnFreeze, x.a, full))
+	g.drain()
+	g.do(g.sys(oracle.FnUnFreeze, x.a, full))
+	g.emitf("payable %s yes", hx(c))
+	return true
+}
+
 // opWideNonceOnFungible: the four NFT functions that work on the caller's own entry, called by the holder of an ordinary
 // FUNGIBLE balance (with the roles) with a nonce argument wider than 64 bits whose low 64 bits are zero: the nonce is 0,
 // there is no NFT - refused, never a nil dereference.
